@@ -160,7 +160,7 @@ func TestVfTwin(t *testing.T) {
 				saved := pr.tr
 				pr.tr = &vfTrace{w: nil}
 				pr.tr = saved
-				pr.learnQuiet(b, &rc)
+				pr.learnQuiet(b, &rc, w*(1+pr.ncase%4))
 				h, pm, st := pr.half(b, 0, 0, srcIP, srcPort, raw)
 				halves[w] = h
 				if pm != "" {
@@ -176,15 +176,43 @@ func TestVfTwin(t *testing.T) {
 	fmt.Printf("VF cases=%d events=%d\n", pr.ncase, tr.n)
 }
 
-// learnQuiet replays the learning requests of a recipe without logging them
-func (pr *vfProxyRun) learnQuiet(b *vfBench, rc *vfRecipe) {
+// learnQuiet replays the learning requests of a recipe without logging them.  The history is part of the twin relation:
+// twin A's learning requests list their Via entries one per line, twin B's in another layout / spelling (comma-joined,
+// compact name, other headers between the Via lines, Via lines last) - what is learnt must not depend on that
+func (pr *vfProxyRun) learnQuiet(b *vfBench, rc *vfRecipe, layout int) {
 	g := pr.g
 	mk := func(viaHosts ...string) []byte {
-		var hs []vfHdr
-		for i, h := range viaHosts {
-			hs = append(hs, vfHdr{"Via", fmt.Sprintf("SIP/2.0/UDP %s;branch=z9hG4bKl%d", h, i)})
+		var hs, vias []vfHdr
+		name := "Via"
+		if layout == 2 {
+			name = "v"
 		}
-		hs = append(hs, vfHdr{"From", "<sip:l@l.example>;tag=l"}, vfHdr{"To", "<sip:nobody@z.z>"}, vfHdr{"Call-ID", "learn"}, vfHdr{"CSeq", "1 OPTIONS"}, vfHdr{"Content-Length", "0"})
+		var ents []string
+		for i, h := range viaHosts {
+			ents = append(ents, fmt.Sprintf("SIP/2.0/UDP %s;branch=z9hG4bKl%d", h, i))
+		}
+		if layout == 1 {
+			vias = []vfHdr{{name, strings.Join(ents, ", ")}}
+		} else {
+			for _, e := range ents {
+				vias = append(vias, vfHdr{name, e})
+			}
+		}
+		rest := []vfHdr{{"Max-Forwards", "70"}, {"From", "<sip:l@l.example>;tag=l"}, {"To", "<sip:nobody@z.z>"}, {"Call-ID", "learn"}, {"CSeq", "1 OPTIONS"}, {"Content-Length", "0"}}
+		switch layout {
+		case 3:
+			for i, v := range vias {
+				hs = append(hs, v, rest[i%2])
+			}
+			hs = append(hs, rest[2:]...)
+			if len(vias) < 2 {
+				hs = append(hs, rest[1])
+			}
+		case 4:
+			hs = append(append(hs, rest...), vias...)
+		default:
+			hs = append(append(hs, vias...), rest...)
+		}
 		return vfRender("OPTIONS sip:nobody@nowhere.example SIP/2.0", hs, nil)
 	}
 	switch rc.Rc.Learn {
